@@ -263,6 +263,7 @@ func c04Jobs(tier string) []Job {
 			add(tag+"overwrite|del", cfg, resident, bound, []Op{set(1), get(1)}, []Op{del(1), set(1)})
 			add(tag+"del|del", cfg, resident, bound, []Op{del(1), set(1)}, []Op{del(1), get(1)})
 			add(tag+"new|new-same-key", cfg, nil, bound, []Op{set(1), set(1)}, []Op{set(1), del(1)})
+			add(tag+"oversized-overwrite|get", cfg, resident, bound, []Op{{K: "set", Key: 1, Cost: 3}, get(1)}, []Op{get(1), set(257)})
 			add(tag+"set|clear", cfg, resident, cbound, []Op{set(1), set(2)}, []Op{{K: "clear"}})
 			add(tag+"del+set|clear", cfg, resident, cbound, []Op{del(1), set(1)}, []Op{{K: "clear"}, set(257)})
 			ttlSetup := []Op{setttl(1, 1000), set(257), {K: "wait"}, {K: "advance", N: 3000}}
@@ -358,6 +359,7 @@ func c04Seq(tier string) []SeqJob {
 	var out []SeqJob
 	mk := func(name string, sb int, su string, depth int, secs float64) {
 		alpha := []Op{{K: "set", Key: 1, Cost: 1}, {K: "del", Key: 1}, {K: "set", Key: 257, Cost: 1}, {K: "setttl", Key: 1, Cost: 1, TTL: 1000}, {K: "set", Key: 2, Cost: 2},
+			{K: "set", Key: 1, Cost: 3}, // larger than the whole cache (MaxCost 2): as a new item and as an overwrite
 			{K: "get", Key: 1}, {K: "clear"}, {K: "close"}, {K: "advance", N: 3000}, {K: "sweep"}, {K: "drain"}}
 		spec := &SeqSpec{Cfg: Cfg{NumCounters: 16, MaxCost: 2, BufferItems: 2, SetBuf: sb, ShouldUpdate: su, TTLTick: 2, BucketSecs: 1, MapOrder: "rot"}, MaxDepth: depth,
 			Alphabet: func(r *SeqRun) []Op { return alpha },
